@@ -20,4 +20,4 @@ Deliver in {wt}/_seed/ :
  - patch.diff : `git -C {wt} diff -- bumble > {wt}/_seed/patch.diff` (changes to the bumble package only; tests unchanged)
  - demo.py : a small standalone program (run as `PYTHONPATH=<tree> /venv/bin/python demo.py`) that exits 0 and prints PASS on the ORIGINAL tree and exits 1 and prints FAIL (with the observed violation) on the patched tree; it must exercise real bumble classes and check the property's observable behaviour, deterministically (no wall-clock sleeps beyond what asyncio needs; no randomness without a fixed seed)
  - meta.json : {{"property": "{pid}", "summary": "...what was changed...", "needs": "...what is needed for the break to manifest...", "clause": "...which clause of the property it breaks..."}}
-Verify yourself, and report the exact commands and outputs: (1) full test suite passes with the patch; (2) demo FAILs with the patch; (3) `git stash` / revert the patch -> demo PASSes on the original; then re-apply the patch so that the worktree ends in the patched state. Keep the change small (a few lines). Your final message: the summary, the needs, and the verification outputs.""")
+Verify yourself, and report the exact commands and outputs: (1) full test suite passes with the patch; (2) demo FAILs with the patch; (3) revert the patch with `git apply -R _seed/patch.diff` (NEVER use `git stash`: the stash is shared with other worktrees of the same repository and other agents are working in them) -> demo PASSes on the original; then re-apply the patch with `git apply _seed/patch.diff` so that the worktree ends in the patched state. Keep the change small (a few lines). Your final message: the summary, the needs, and the verification outputs.""")
